@@ -23,7 +23,7 @@ func concBatches(seed int64, tier core.Tier, prop string) []core.Batch {
 	workers := []int{1, 2, 3, 8, 32}
 	inch := []int{1, 4, 1024}
 	n := 0
-	reps := tierPick(tier, 1, 12)
+	reps := tierPick(tier, 1, 30)
 	for rep := 0; rep < reps; rep++ {
 		for _, w := range workers {
 			for _, ic := range inch {
@@ -48,7 +48,7 @@ func concBatches(seed int64, tier core.Tier, prop string) []core.Batch {
 			}
 		}
 	}
-	for rep := 0; rep < tierPick(tier, 2, 20); rep++ {
+	for rep := 0; rep < tierPick(tier, 2, 40); rep++ {
 		for _, d := range []string{"retire-vs-append", "queued-before-signal", "worker-before", "control"} {
 			for _, w := range []int{1, 2, 8} {
 				bs = append(bs, core.Batch{Name: fmt.Sprintf("directed-%s-w%d-r%d", d, w, rep), TimeoutS: 120,
